@@ -109,6 +109,18 @@ func propC17(run *Run, n int) {
 			run.Count("v1:values-permuted-among-keys")
 			addC17Case(run, ch.m, ch.label+"-permuted-values", true, pr[0], pr[1])
 		}
+		// a changed set below a chain of objects (path lengths 1 … 13: slices with spare capacity) with a LATER sibling key
+		for _, depth := range []int{1, 3, 5, 6, 9, 11, 13} {
+			leafA := VObj("x", VArr(VNum(1), VNum(2)), "y", VArr(VNum(3), VNum(4)), "z", VNum(0))
+			leafB := VObj("x", VArr(VNum(1), VNum(5)), "y", VArr(VNum(3), VNum(4)), "z", VNum(1))
+			a, b := leafA, leafB
+			for k := depth - 1; k >= 0; k-- {
+				key := string(rune('a' + k%20))
+				a, b = VObj(key, a), VObj(key, b)
+			}
+			run.Count("v1:set-below-chain-with-later-sibling")
+			addC17Case(run, ch.m, ch.label+"-deep-sibling", true, a, b)
+		}
 	}
 	for i := 0; i < n; i++ {
 		ch := choices[r.Intn(len(choices))]
